@@ -102,3 +102,216 @@ def c03(tier):
 
 
 PLANS = {"C03": c03}
+
+
+# ------------------------------------------------------------------------------------------
+import unicodedata
+
+
+def wid_rows(rows):
+    """display width annotation from an independent source (python unicodedata)"""
+    out = []
+    for r in rows:
+        o = []
+        for c in r:
+            ch = chr(c)
+            if unicodedata.east_asian_width(ch) in ("W", "F"):
+                o.append(2)
+            elif unicodedata.category(ch) in ("Mn", "Me", "Cf") or c == 0x200B:
+                o.append(0)
+            else:
+                o.append(1)
+        out.append(o)
+    return out
+
+
+def narrow(text):
+    return all(w == 1 for r in wid_rows(gen.rows_of(text)) for w in r)
+
+
+def std_assumptions():
+    return ["expat and the projection (verifpy/project.py) are trusted",
+            "TLC's evaluation of the trace specification is trusted",
+            "the guarantee about the code is per observed execution"]
+
+
+def rel_events(run, groups, prop):
+    """groups: list of lists of (case, rel or None); first of each group is a base (no rel)"""
+    cases = [c for g in groups for (c, _) in g]
+    obs = observe.observe(cases, tag=run.prop + "R")
+    i = 0
+    for g in groups:
+        for (c, rel) in g:
+            o = obs[i]
+            i += 1
+            ev = {"props": [prop] if rel else [], "rows": o["rows"], "doc": o["doc"]}
+            if rel:
+                ev["rel"] = rel
+            if c.get("wid"):
+                ev["wid"] = wid_rows(o["rows"])
+            run.add_event(ev, {"input": c["input"], "entry": c.get("entry", "to_svg"),
+                               "settings": c.get("settings"), "rel": rel, "source": c.get("source", "")})
+    return obs
+
+
+def c06(tier):
+    run = Run("C06", tier)
+    n = 700 if tier == "quick" else 40000
+    run.rule = ("pairs (base, shifted) of legend-free inputs: random grids over the full drawing vocabulary incl. "
+                "Unicode glyphs, parametric shapes, paragraphs of the bundled examples; offsets: one small "
+                "(k,n<=8), one medium, one up to 400x200 per base; TLC checks the input relation and the document "
+                "relation; non-trivial = the shifted document has at least one element")
+    r = common.rng("C06")
+    # model: shift-commutation of the pipeline model on small grids
+    cfg = write_cfg("MC_C06", {"W": 2, "H": 2, "Alphabet": tla_set([32, 45, 124, 43, 46, 39, 126, 58, 97])},
+                    ["ShiftCommutes"], init="MCInit", next_="MCNext")
+    run.model("MC_Rel", cfg)
+    corpus = gen.mixed_corpus(r, n)
+    corpus = [t for t in corpus if t.strip() and '"' not in t and "# Legend:" not in t]
+    groups = []
+    for t in corpus:
+        g = [({"input": t}, None)]
+        offs = [(r.randint(0, 8), r.randint(0, 8)), (r.randint(0, 60), r.randint(0, 30))]
+        if r.random() < 0.3:
+            offs.append((r.randint(0, 400), r.randint(0, 200)))
+        for j, (k, nn) in enumerate(offs):
+            g.append(({"input": gen.shift_text(t, k, nn)}, {"kind": "shift", "of": j + 1, "k": k, "n": nn}))
+        groups.append(g)
+    rel_events(run, groups, "C06")
+    run.samples.append({"base": corpus[0], "offsets": "see rule"})
+    run.validate(shard=1500)
+    run.assumptions = std_assumptions()
+    return run.finish()
+
+
+def c10(tier):
+    run = Run("C10", tier)
+    n = 900 if tier == "quick" else 60000
+    run.rule = ("triples (A, B, A|B) with A, B legend-free, tag-free, quote-free diagrams (random grids over the "
+                "full vocabulary, shapes, bundled paragraphs) placed side by side or stacked with gaps 1..3; TLC "
+                "checks the juxtaposition of the inputs and then UnionDoc; non-trivial = juxtaposed document non-empty")
+    r = common.rng("C10")
+    if tier == "quick":
+        cfg = write_cfg("MC_C10", {"W": 2, "H": 1, "Alphabet": tla_set([32, 45, 124, 43, 46, 39])},
+                        ["JuxtaCommutes"], init="MCInitPair", next_="MCNext")
+    else:
+        cfg = write_cfg("MC_C10", {"W": 2, "H": 2, "Alphabet": tla_set([32, 45, 124, 43])},
+                        ["JuxtaCommutes"], init="MCInitPair", next_="MCNext")
+    run.model("MC_Rel", cfg, timeout=3000)
+    corpus = [t for t in gen.mixed_corpus(r, n) if t.strip() and '"' not in t and "{" not in t and "# Legend:" not in t]
+    groups = []
+    for i in range(0, len(corpus) - 1, 2):
+        a, b = corpus[i], corpus[i + 1]
+        ra, rb = a.split("\n"), b.split("\n")
+        gap = r.randint(1, 3)
+        if r.random() < 0.5 and narrow(a):
+            at = max(len(x.rstrip(" \t")) for x in ra) + gap
+            h = max(len(ra), len(rb))
+            j = "\n".join(((ra[k] if k < len(ra) else "").rstrip(" \t").ljust(at) + (rb[k] if k < len(rb) else "")).rstrip(" \t")
+                          for k in range(h))
+            rel = {"kind": "juxta", "of": 2, "of2": 1, "mode": "side", "at": at, "gap": gap}
+        else:
+            j = "\n".join(ra + [""] * gap + rb)
+            rel = {"kind": "juxta", "of": 2, "of2": 1, "mode": "stack", "at": 0, "gap": gap}
+        groups.append([({"input": a, "wid": True}, None), ({"input": b}, {"kind": "none"}), ({"input": j}, rel)])
+    # the middle event (B) must not start a shard on its own: give it a rel marker without props
+    obs_cases = [c for g in groups for (c, _) in g]
+    obs = observe.observe(obs_cases, tag="C10R")
+    i = 0
+    for g in groups:
+        for pos, (c, rel) in enumerate(g):
+            o = obs[i]
+            i += 1
+            ev = {"props": ["C10"] if pos == 2 else [], "rows": o["rows"], "doc": o["doc"]}
+            if pos > 0:
+                ev["rel"] = rel
+            if pos == 0:
+                ev["wid"] = wid_rows(o["rows"])
+            run.add_event(ev, {"input": c["input"], "rel": rel, "a": g[0][0]["input"], "b": g[1][0]["input"]})
+    run.samples.append({"a": groups[0][0][0]["input"], "b": groups[0][1][0]["input"], "joined": groups[0][2][0]["input"]})
+    run.validate(shard=1500)
+    run.assumptions = std_assumptions()
+    return run.finish()
+
+
+SCALES = [0.5, 1, 3, 10, 20, 37.5]
+
+
+def c11(tier):
+    run = Run("C11", tier)
+    n = 500 if tier == "quick" else 30000
+    run.rule = ("each input is converted at scale 8 and at scales {0.5,1,3,10,20,37.5} (2 of them per input in the "
+                "quick tier); documents are recorded in lattice units (numbers divided exactly by scale/8), so "
+                "ScaledDoc is bag equality up to 1/1000 cell; inputs contain grouped and free lines, rects with and "
+                "without radius, arcs, circles, polygons, marker lines, texts and tagged shapes; "
+                "plus RefCanvas at scale 8 = 8x16 per cell. non-trivial = document non-empty")
+    r = common.rng("C11")
+    corpus = [t for t in gen.mixed_corpus(r, n) if t.strip()]
+    tagged = []
+    for i in range(max(20, n // 10)):
+        tagged.append(gen.box(r.randint(5, 12), r.randint(1, 3), r.choice(["sharp", "round", "uni"]),
+                              r.choice(["{a}", "{abc}", "{a1,b2}"])))
+    groups = []
+    for t in corpus + tagged:
+        g = [({"input": t, "entry": "settings", "settings": {"scale": 8.0}}, None)]
+        scales = SCALES if tier == "thorough" else r.sample(SCALES, 2)
+        for j, s in enumerate(scales):
+            g.append(({"input": t, "entry": "settings", "settings": {"scale": s}}, {"kind": "scale", "of": j + 1}))
+        groups.append(g)
+    rel_events(run, groups, "C11")
+    run.samples.append({"input": tagged[0], "scales": SCALES})
+    run.validate(shard=1500)
+    run.assumptions = std_assumptions()
+    return run.finish()
+
+
+def eol_variant(r, t, crlf):
+    lines = t.split("\n")
+    out = []
+    depth = 0
+    for ln in lines:
+        pad = "".join(r.choice(" \t") for _ in range(r.choice([0, 0, 1, 3])))
+        inside = depth > 0
+        depth += ln.count("{") - ln.count("}")
+        if inside or depth > 0:
+            pad = ""      # inside a multi-line legend declaration blanks are part of the CSS text
+        out.append(ln + pad)
+    out += [""] * r.randint(0, 5)
+    return ("\r\n" if crlf else "\n").join(out)
+
+
+LEGENDS = ["# Legend:\na = {fill:red}\n", "# Legend:\nbig = {stroke:blue; fill:none}\nx1={fill:#aaa}\n",
+           "# Legend:\na = {\n  fill: red;\n  stroke: \"x\"\n}\nb = {stroke-width:4}"]
+
+
+def c17(tier):
+    run = Run("C17", tier)
+    n = 500 if tier == "quick" else 30000
+    run.rule = ("each input (with and without legend, quoted text, wide characters) is converted as is and in "
+                "variants: LF/CRLF x random trailing blanks/tabs per line x 0..5 trailing blank lines; TLC checks "
+                "EolVariant of the inputs (same rows once CR and trailing blanks are removed) and SameDoc (same "
+                "elements, canvas and style text); non-trivial = non-empty document")
+    r = common.rng("C17")
+    cfg = write_cfg("MC_C17", {"W": 3, "H": 2, "Alphabet": tla_set([32, 45, 124, 97])},
+                    ["EolInvariant"], init="MCInit", next_="MCNext")
+    run.model("MC_Rel", cfg)
+    corpus = [t for t in gen.mixed_corpus(r, n) if t.strip()]
+    groups = []
+    for i, t in enumerate(corpus):
+        t = "\n".join(x.rstrip(" \t") for x in t.split("\n"))
+        if i % 3 == 0:
+            t = t + "\n" + r.choice(LEGENDS)
+        elif i % 3 == 1:
+            t = t + '\n "quoted |-+ text" ' + r.choice(["", "一二", "x"])
+        g = [({"input": t, "want_style": True}, None)]
+        for j in range(2 if tier == "quick" else 4):
+            g.append(({"input": eol_variant(r, t, crlf=(j % 2 == 0)), "want_style": True}, {"kind": "eol", "of": j + 1}))
+        groups.append(g)
+    rel_events(run, groups, "C17")
+    run.samples.append({"base": groups[0][0][0]["input"], "variant": groups[0][1][0]["input"]})
+    run.validate(shard=1200)
+    run.assumptions = std_assumptions()
+    return run.finish()
+
+
+PLANS.update({"C06": c06, "C10": c10, "C11": c11, "C17": c17})
